@@ -145,7 +145,7 @@ def main():
     rng = random.Random(seed)
     rng.shuffle(cands)
     os.makedirs(os.path.dirname(outp), exist_ok=True)
-    env = {"VF_WORK": "/var/tmp/vf-work-mut", "VF_EVIDENCE_DIR": "/var/tmp/vf-work-mut/evidence", "VF_REPLAY_DIR": "/var/tmp/vf-work-mut/replays"}
+    env = {"VF_LOCK_HELD": "1", "VF_WORK": "/var/tmp/vf-work-mut", "VF_EVIDENCE_DIR": "/var/tmp/vf-work-mut/evidence", "VF_REPLAY_DIR": "/var/tmp/vf-work-mut/replays"}
     os.makedirs("/var/tmp/vf-work-mut", exist_ok=True)
     n = 0
     print(f"{len(cands)} candidate mutants in {len(files)} files; running up to {count}", flush=True)
